@@ -124,6 +124,11 @@ pub struct FCase {
     /// (bit 0) and/or the floating-point set (bit 1): the writer's second interface has to answer
     #[serde(default)]
     pub refuse_regsets: u8,
+    /// skip-unreferenced is requested with a principal address inside the crash-ip mapping, into which
+    /// every parked thread's stack then holds a pointer (slot 1..4 above its stack pointer): their stacks
+    /// are kept and must be as faithful as without the option
+    #[serde(default)]
+    pub skip_principal: Option<u8>,
 }
 
 pub const ODD_SPS: [u64; 6] = [u64::MAX, 1, 7, 1 << 63, 0xffff_8000_0000_0000, u64::MAX - 7];
@@ -280,6 +285,15 @@ pub fn run_case(c: &FCase) -> Result<Obs, RunErr> {
     if c.ip_neighbors.1 {
         b.add_anon_at(ip_addr + ip_pages * PAGE, 1, 3, 0x0AB0_0000);
     }
+    if let Some(k) = c.skip_principal {
+        for ((id, kind, sp), st) in ids.iter().zip(stacks.iter()) {
+            let _ = id;
+            let at = ((sp + 7) & !7) + 8 * (1 + k as u64 % 4);
+            if *kind == K_PARKED && at >= st.base && at + 8 <= st.end {
+                b.spec.pokes.push((at, ip_addr + 0x10));
+            }
+        }
+    }
     let spec = b.spec.clone();
     let mut t = Target::spawn(&spec, scratch).map_err(|e| RunErr::Inconclusive(format!("target setup: {}", e.split(':').next().unwrap_or(""))))?;
     if !t.wait_settled(&spec) {
@@ -342,7 +356,13 @@ pub fn run_case(c: &FCase) -> Result<Obs, RunErr> {
         gregs[REG_RSP] = match st {
             Some(st) => {
                 let pages = (st.end - st.base) / PAGE;
-                (st.base + (pick(cr.rsp_page, pages as usize) as u64) * PAGE + (cr.rsp_inpage as u64 % PAGE)) as i64
+                if cr.seed % 6 == 0 {
+                    // a stack-overflow-shaped context: the stack pointer lies just below the stack, in its
+                    // guard page or in the hole under it
+                    (st.base - 8 - (cr.rsp_inpage as u64 % 0xff8)) as i64
+                } else {
+                    (st.base + (pick(cr.rsp_page, pages as usize) as u64) * PAGE + (cr.rsp_inpage as u64 % PAGE)) as i64
+                }
             }
             None => 0x3000_0000_1000u64 as i64,
         };
@@ -365,7 +385,7 @@ pub fn run_case(c: &FCase) -> Result<Obs, RunErr> {
         LimitG::Huge => Some(1 << 40),
         LimitG::Top(k) => Some([u64::MAX, u64::MAX - 1, 1 << 63, (1 << 63) + (1 << 40), (1 << 63) - 1][k as usize % 5]),
     };
-    let opts = DumpOpts { blamed, crash: crash.clone(), size_limit: limit, app_memory: app_regions.clone(), ..Default::default() };
+    let opts = DumpOpts { blamed, crash: crash.clone(), size_limit: limit, app_memory: app_regions.clone(), skip_unreferenced: c.skip_principal.is_some(), principal: c.skip_principal.map(|_| ip_addr + 0x20), ..Default::default() };
     let maps_before = parse_maps(&t.maps_text().unwrap_or_default());
     // exiters vanish between enumeration and attach (only possible when the process is not stopped)
     let failmask = if c.stop_failspot { FS_STOP } else { 0 };
@@ -502,7 +522,7 @@ pub fn case_strategy(max_threads: usize, min_threads: usize) -> impl Strategy<Va
                     }
                 }
             }
-            FCase { threads, blamed, crash, limit, app_maps, app, ip_map_pages, stop_failspot, cue_exiters, ip_neighbors, second_dump, odd_sp: None, file_stack: None, sealed_app: None, refuse_regsets: 0 }
+            FCase { threads, blamed, crash, limit, app_maps, app, ip_map_pages, stop_failspot, cue_exiters, ip_neighbors, second_dump, odd_sp: None, file_stack: None, sealed_app: None, refuse_regsets: 0, skip_principal: None }
         })
 }
 
